@@ -14,19 +14,32 @@ use base::refmodel as rf;
 pub struct Path {
     pub name: String,
     pub unit: bool,
+    /// short piece, long unaligned piece, short piece
+    pub three: bool,
     pub kind: Kind,
 }
 pub fn paths(fe: &Fe) -> Vec<Path> {
     let mut v = vec![];
     for &k in &fe.kinds {
-        v.push(Path { name: format!("whole:{}", k.s()), unit: false, kind: k });
+        v.push(Path { name: format!("whole:{}", k.s()), unit: false, three: false, kind: k });
     }
     if fe.multi {
-        v.push(Path { name: "unitwise".into(), unit: true, kind: fe.kinds[0] });
+        v.push(Path { name: "unitwise".into(), unit: true, three: false, kind: fe.kinds[0] });
+        v.push(Path { name: "three-pieces".into(), unit: false, three: true, kind: fe.kinds[0] });
     }
     v
 }
 pub fn pieces_for(fe: &Fe, path: &Path, l: usize) -> Vec<P> {
+    if path.three {
+        // first piece ends mid-block where the granule allows it, the middle piece is as long as possible
+        let g = fe.gran;
+        let a = if g == 1 { 1 + (l / 7) % 5 } else { g };
+        let c = if g == 1 { 1 + (l / 11) % 3 } else { g };
+        if l >= a + c + g {
+            return vec![p(a, path.kind), p(l - a - c, path.kind), p(c, path.kind)];
+        }
+        return vec![p(l, path.kind)];
+    }
     if path.unit && l > 0 { (0..l / fe.gran).map(|_| P { len: fe.gran, kind: path.kind, single: fe.singles }).collect() } else { vec![p(l, path.kind)] }
 }
 
